@@ -3,9 +3,11 @@ import Varpulis.Driver.Util
 /-! `vmodel join`: replays C15 `add_event` sequences on the `JoinBuffer` model, compares result and
 buffer sizes, and judges the implementation's own result against the specification `specJoin`
 (join iff every source has a same-key event within the window; fields from the most recently
-arrived one). A mismatch with the specification is classified under the two known, narrow guards
-(an in-window candidate was evicted by the per-key cap / may have been expired because the arriving
-event is more than a window behind an earlier arrival) or reported as `JUDGE`. -/
+arrived one). The mirrored code's answer is compared *exactly* on every line, also after the cap was
+hit or the GC ran. Only a difference between oracle and mirror — the implementation agreeing with the
+mirror — may be classified under the two known, narrow guards (an in-window candidate was evicted by
+the per-key cap / may have been expired because the arriving event is more than a window behind an
+earlier arrival); an implementation result that differs from both oracle and mirror is a `JUDGE`. -/
 namespace Varpulis.Driver.JoinD
 open Varpulis.Join Varpulis.Driver
 
@@ -78,15 +80,27 @@ def step (st : St) (line : String) : St × String :=
         if !c.sources.contains src then (st', verdict m impl)
         else
           let spec := specJoin c hist key ts
-          if fmtRes spec == implRes then (st', verdict m impl)
+          let implOk := fmtRes spec == implRes          -- implementation = oracle
+          let mirrorRes := fmtRes r                     -- what the mirrored code answers
+          if implOk then (st', verdict m impl)
+          else if implRes != mirrorRes then
+            -- the implementation deviates from the oracle in a way the mirrored code does not:
+            -- never covered by a known finding, whatever happened to the cap or the GC before
+            (st', s!"JUDGE C15 expected {fmtRes spec} (every source's most recent in-window same-key event), got {implRes}; the modelled add_event/try_correlate/cleanup_expired gives {mirrorRes}")
           else
+            -- implementation = mirror ≠ oracle: only this difference may fall under a known finding
             let cands := c.sources.flatMap fun s =>
               (histOf hist s key).filter fun e => decide (e.ts ≥ ts - c.window)
-            if cands.any fun e => st'.evicted.contains e.id then
-              (st', s!"KNOWN[C15-cap-evicts-in-window] expected {fmtRes spec}")
-            else if cands.any fun e => expirable c.window hist e then
-              (st', s!"KNOWN[C15-late-arrival-after-gc] expected {fmtRes spec}")
-            else (st', s!"JUDGE C15 expected {fmtRes spec} (every source's most recent in-window same-key event), got {implRes}")
+            let known :=
+              if cands.any fun e => st'.evicted.contains e.id then some "C15-cap-evicts-in-window"
+              else if cands.any fun e => expirable c.window hist e then some "C15-late-arrival-after-gc"
+              else none
+            match known with
+            | none => (st', s!"JUDGE C15 expected {fmtRes spec} (every source's most recent in-window same-key event), got {implRes}")
+            | some k =>
+              -- the buffer sizes must still correspond exactly
+              if m == impl then (st', s!"KNOWN[{k}] expected {fmtRes spec}")
+              else (st', verdict m impl)
     | _, _, _ => (st, "BADLINE")
   | [] => (st, "")
   | _ => (st, "BADLINE")
